@@ -42,6 +42,7 @@ class Check:
         self.configs = []
         self.controls = []       # (rule, control, fired)
         self.known = load_known()
+        self.broken = []
 
     # -- recording ------------------------------------------------------------
     def rule(self, rid, desc):
@@ -65,9 +66,26 @@ class Check:
             self.infos.append((rule, msg))
 
     def floor(self, rule, n, minimum, what):
+        if n is None:
+            return              # the rule itself already reported why it could not run
         if n < minimum:
-            raise AnalysisBroken("rule %s matched %d %s, fewer than the %d confirmed by hand: "
-                                 "the anchor moved or the rule no longer sees it" % (rule, n, what, minimum))
+            self.broken.append("rule %s matched %d %s, fewer than the %d confirmed by hand: "
+                               "the anchor moved or the rule no longer sees it" % (rule, n, what, minimum))
+
+    def attempt(self, fn, *args, **kw):
+        """run one rule; a slot / anchor failure inside it is recorded (exit 2 unless a violation is found
+        elsewhere) and does not stop the other rules of the property"""
+        try:
+            return fn(*args, **kw)
+        except AnalysisBroken as e:
+            self.broken.append(str(e))
+            return None
+        except Exception as e:          # a rule tripping over an unforeseen shape is "no verdict", never a pass
+            import traceback
+            tb = traceback.extract_tb(e.__traceback__)[-1]
+            self.broken.append("internal error in %s: %s: %s (%s:%d)" % (getattr(fn, "__name__", "rule"), type(e).__name__, e,
+                                                                         os.path.basename(tb.filename), tb.lineno))
+            return None
 
     def control(self, rule, name, fired, expected=True):
         self.controls.append((rule, name, fired, expected))
@@ -115,6 +133,7 @@ class Check:
             "not_decided": self.not_decided,
             "known_findings_reported": [v["key"] for v in known],
             "violations_reported": [{"key": v["key"], "site": v["site"], "msg": v["msg"]} for v in new],
+            "analysis_broken": self.broken,
             "exhaustive": True,
         }
         ev = {
@@ -141,6 +160,8 @@ class Check:
         for v in known:
             print("KNOWN-FINDING: property=%s %s at %s: %s" % (self.prop, v["key"], v["site"],
                                                               self.known[(self.prop, v["key"])]))
+        for b in self.broken:
+            print("ANALYSIS-BROKEN: %s" % b, file=sys.stderr)
         if new:
             os.makedirs(os.path.join(VERIF, "replays"), exist_ok=True)
             for v in new:
@@ -153,6 +174,9 @@ class Check:
                 print("  %s: %s [%s] %s" % (v["site"], v["rule"], v["config"], v["msg"]))
                 print("VIOLATION property=%s replay=%s" % (self.prop, rp))
             return 1
+        if self.broken:
+            print("%s: no verdict - %d rule(s) lost their anchor (exit 2)" % (self.prop, len(self.broken)))
+            return 2
         print("%s: %d rule instance(s) in %d rule(s) examined, all hold (%.1fs, tier %s)" % (
             self.prop, len(self.instances), len(by_rule), wall, self.tier))
         return 0
